@@ -89,13 +89,16 @@ def _prune_cache(keep=40, min_age_s=6 * 3600):
     except OSError:
         return
     now = time.time()
-    ents.sort(key=lambda p: os.path.getmtime(p), reverse=True)
-    for p in ents[keep:]:
+
+    def mtime(p):            # (a concurrent run may prune an entry between listdir and here)
         try:
-            if now - os.path.getmtime(p) > min_age_s:
-                shutil.rmtree(p, True)
+            return os.path.getmtime(p)
         except OSError:
-            pass
+            return now
+    ents = sorted(((mtime(p), p) for p in ents), reverse=True)
+    for t, p in ents[keep:]:
+        if now - t > min_age_s:
+            shutil.rmtree(p, True)
 
 
 def build_shadow(flavour="normal"):
